@@ -134,6 +134,10 @@ def main(tier):
     num = 150 if quick else 2500
     behs, sim = layerb.generate_behaviours("PyDRexC07", "PyDRexC07", num, 10, SEED + 1)
     chk.add_tlc("PyDRexC07(simulate)", sim, f"{num} random behaviours of depth 8")
+    # the workflow machine adds bulk updates refused part-way and calls with non-callable arguments
+    fbehs, fsim = layerb.generate_behaviours("PyDRexFlow", "PyDRexFlowSim", 30 if quick else 800, 12, SEED + 2)
+    chk.add_tlc("PyDRexFlow(simulate)", fsim, "workflow behaviours incl. UpdateBadArgs (non-callable velocity gradient / position) and UpdateAllPartial")
+    behs = behs + fbehs
     comp = layerb.Comparator()
     events = []
     with scratch() as d:
